@@ -553,6 +553,14 @@ def generate_all(base_build_dir):
         out["failures"] += r["failures"]
     except TranslationError as e:
         out["failures"].append("translator: %s" % e)
+    # tower formulas of src/fpx (property C10); kept under their own keys: they are obligations of C10 only
+    try:
+        import translate_fpx
+        fr = translate_fpx.generate()
+        out["fpx_obligations"] = fr["obligations"]
+        out["fpx_failures"] = fr["failures"]
+    except Exception as e:  # noqa: BLE001
+        out["fpx_failures"] = ["translate_fpx: %r" % (e,)]
     import translate_params
     pr = translate_params.generate(base_build_dir)
     out["param_obligations"] = pr["obligations"]
